@@ -155,7 +155,13 @@ fn unary_checks(cx: &mut CaseCx, a: &BigUint, ra: &Fp) {
   // square roots: defined exactly for residues, and the root squares to a
   cx.eval();
   let is_res = a.is_zero() || rm::powm(a, &rm::q()) == BigUint::one();
-  let root: Option<Fp> = Option::from(ra.sqrt());
+  let root: Option<Fp> = match guard(|| Option::<Fp>::from(ra.sqrt())) {
+    Ok(r) => r,
+    Err(p) => {
+      cx.viol("C07/panic/sqrt", format!("sqrt({}) panicked: {}", a, p.chars().take(200).collect::<String>()), d());
+      return;
+    }
+  };
   match (root, is_res) {
     (Some(r), true) => {
       let rb = fp_to_big(&r);
@@ -167,7 +173,13 @@ fn unary_checks(cx: &mut CaseCx, a: &BigUint, ra: &Fp) {
     (None, false) => cx.outcome("sqrt(non-residue)=None"),
     (g, w) => cx.viol("C07/unary/sqrt-domain", format!("sqrt({}) defined={} but operand is residue={}", a, g.is_some(), w), d()),
   }
-  let (is_sq, r2) = Fp::sqrt_ratio(ra, &Fp::ONE);
+  let (is_sq, r2) = match guard(|| Fp::sqrt_ratio(ra, &Fp::ONE)) {
+    Ok(r) => r,
+    Err(p) => {
+      cx.viol("C07/panic/sqrt_ratio", format!("sqrt_ratio({},1) panicked: {}", a, p.chars().take(200).collect::<String>()), d());
+      return;
+    }
+  };
   cx.eval();
   if bool::from(is_sq) != is_res {
     cx.viol("C07/unary/sqrt_ratio-domain", format!("sqrt_ratio({},1) is_square={} but residue={}", a, bool::from(is_sq), is_res), d());
